@@ -368,7 +368,7 @@ def apply_contract(run, st, name, args, ins, bindings=None):
                 else:
                     raise VerifError("result hint of %s is not a pointer" % cname)
             elif h is not None and h[0] == "fresh":
-                o = run.new_obj(prog.elem(rt), "res." + short(cname), "result")
+                o = run.new_obj(prog.elem(rt), "res." + short(cname), "result", oid=run.site_oid(st, "res." + short(cname), str(ins.get("reg")) + ".%d" % i))
                 run.init_obj_fresh(st, o, "res." + short(cname))
                 results.append(Ptr(o))
                 for (oo, pp, lt) in run.cells_under(o, ()):
@@ -396,7 +396,7 @@ def apply_contract(run, st, name, args, ins, bindings=None):
             evh.pkg = c.pkg
             ln = evh.conc(evh.ev(n[1], True))
             et = prog.elem(rt)
-            o = run.new_obj(et, "res." + short(cname), "result", lazy=True)
+            o = run.new_obj(et, "res." + short(cname), "result", lazy=True, oid=run.site_oid(st, "res." + short(cname), str(ins.get("reg")) + ".%d" % i))
             for j in range(ln):
                 for p, lt in prog.leaves(et):
                     st.mem[(o, (j,) + p)] = run.fresh_value(st, lt, "res.%s[%d]" % (short(cname), j))
